@@ -146,6 +146,9 @@ def main(argv=None):
         print(msg, flush=True)
 
     plan = mod.plan(tier, seed)
+    if tier == "quick":
+        for j in plan["jobs"]:
+            j["timeout"] = min(j.get("timeout", 3600), 1500)    # a hang must not hold the quick tier for an hour
     modes = sorted({j.get("mode", "compiled") for j in plan["jobs"]})
     try:
         with build.Scratch(modes) as sc:
